@@ -211,9 +211,11 @@ CStep(c, e, o, n) ==
     \*   "<ra>" { account "?*"; class <cfg.cls.acct> }   "<rz>" { class <cfg.cls.none> }
     \* configured (cfg.cls.on), an accepted client with a stamp is in class cfg.cls.acct, one without in cfg.cls.none
     clsOn == "cls" \in DOMAIN c.cfg /\ c.cfg.cls.on
-    \* optional first rule "<r1>" { xreply_ok <cfg.cls.xr.svc>; class <cfg.cls.xr.class> }: an OK from that service
-    clsXr == clsOn /\ "xr" \in DOMAIN c.cfg.cls /\ c.cfg.cls.xr.svc \in x4.okd
-    clsOK(m) == ~clsOn \/ m.cls = (IF clsXr THEN c.cfg.cls.xr.class
+    \* optional leading rules "<r0>", "<r1>", ... { xreply_ok <cfg.cls.xr[k].svc>; class <cfg.cls.xr[k].class> } (in that
+    \* order): the first one whose service has said OK to this client decides
+    xrs == IF clsOn /\ "xr" \in DOMAIN c.cfg.cls THEN c.cfg.cls.xr ELSE << >>
+    xrHit == {k \in 1..Len(xrs) : xrs[k].svc \in x4.okd}
+    clsOK(m) == ~clsOn \/ m.cls = (IF xrHit # {} THEN xrs[CHOOSE k \in xrHit : \A k2 \in xrHit : k <= k2].class
                                     ELSE IF x4.acct # Nil THEN c.cfg.cls.acct ELSE c.cfg.cls.none)
     acceptOK == IF mustAccept
                 THEN /\ Len(accepts) = 1
